@@ -242,6 +242,65 @@ def sources(tier, seed):
     return out
 
 
+def cart_sources(tier, seed):
+    """sources that carry ONLY Cartesian coordinates NOT of unit length, numpy-backed (nothing spherical is stored for the element
+    kind concerned): every spherical quantity is lazily derived from the stored x/y/z, which must keep reporting what they hold."""
+    ms = {m["name"]: m for m in mg.small_meshes()}
+    out = []
+
+    def fv_of(m, r):
+        x, y, z = mg.xyz_of(m["lon"], m["lat"])
+        return r * np.array([[[x[v], y[v], z[v]] for v in mg.face_corners(m, f)] for f in range(m["n_face"])], float)
+
+    def base(m, tag, scen, make):
+        return {"name": f"{tag}:{m['name']}", "mesh": m, "make": make, "lon": np.asarray(m["lon"]), "lat": np.asarray(m["lat"]),
+                "scenario": scen}
+
+    def face_vertices(m, r):
+        fv = fv_of(m, r)
+        return base(m, f"cartesian_only_radius_{r:g}", "nonunit_cartesian_only_source(from_face_vertices)",
+                    (lambda fv=fv: ux.Grid.from_face_vertices(fv.copy(), latlon=False)))
+
+    def ugrid_like(m, r):
+        x, y, z = (r * np.asarray(c, float) for c in mg.xyz_of(m["lon"], m["lat"]))
+        faces = np.array(m["faces"])
+
+        def make():
+            ds = xr.Dataset({"node_x": (("n_node",), x.copy()), "node_y": (("n_node",), y.copy()), "node_z": (("n_node",), z.copy()),
+                             "face_node_connectivity": (("n_face", "n_max_face_nodes"), faces.copy())})
+            return ux.Grid.from_dataset(ds, source_grid_spec="UGRID")
+        return base(m, f"ugrid_like_node_xyz_only_radius_{r:g}", "nonunit_cartesian_only_source(dataset_node_xyz_only)", make)
+
+    def stored_centres(m, r):
+        # node_lon/node_lat given; face and edge centres stored as x/y/z of length ~r only (no face_lon / edge_lon)
+        x, y, z = (np.asarray(c, float) for c in mg.xyz_of(m["lon"], m["lat"]))
+        en = np.array(grid_of(m).edge_node_connectivity.values, copy=True)      # input construction only: the edge numbering
+        fc = [mg.face_corners(m, f) for f in range(m["n_face"])]
+        fxyz = [r * np.array([c[list(vs)].mean() for vs in fc]) for c in (x, y, z)]
+        exyz = [r * 0.5 * (c[en[:, 0]] + c[en[:, 1]]) for c in (x, y, z)]
+
+        def make():
+            return ux.Grid.from_topology(node_lon=np.array(m["lon"], float), node_lat=np.array(m["lat"], float),
+                                         face_node_connectivity=np.array(m["faces"]), fill_value=mg.FILL,
+                                         edge_node_connectivity=en.copy(),
+                                         face_x=fxyz[0].copy(), face_y=fxyz[1].copy(), face_z=fxyz[2].copy(),
+                                         edge_x=exyz[0].copy(), edge_y=exyz[1].copy(), edge_z=exyz[2].copy())
+        return base(m, f"stored_face_edge_xyz_only_radius_{r:g}", "nonunit_cartesian_only_source(stored_face_edge_xyz)", make)
+
+    out.append(face_vertices(ms["quads2x2@-10,-10"], 2.0))
+    out.append(face_vertices(ms["quads2x1@30,70"], 6371.22))
+    out.append(ugrid_like(ms["mixed_quad_tri_isolated"], 6371.22))
+    out.append(stored_centres(ms["quads2x2@-20,-10"], 2.0))
+    if tier == "thorough":
+        out.append(face_vertices(ms["quads3x2@165,-15"], 0.5))
+        out.append(ugrid_like(ms["tri_pent_quad"], 2.0))
+        out.append(stored_centres(ms["hex_quad_tri"], 6371.22))
+        for rm in mg.random_meshes(seed * 17 + 3, 2):
+            if rm["n_face"] <= 12:
+                out.append(ugrid_like(rm, 3.0))
+    return out
+
+
 # ================================================================================================ operations
 PROPS = ["dims", "sizes", "coordinates", "connectivity", "descriptors", "parsed_attrs", "attrs", "n_node", "n_edge", "n_face",
          "n_max_face_nodes", "n_max_face_edges", "n_max_face_faces", "n_max_edge_edges", "n_max_node_faces", "n_max_node_edges",
@@ -609,8 +668,9 @@ class Runner:
             clause = "attrs_depend_on_history"
         else:
             clause = "value_depends_on_history"
+        scen = self.srcs[pair[gi]].get("scenario")       # targeted sources name their scenario in the key
         if is_prop and clause != "exception_depends_on_history":
-            key = f"{clause}:{X.group}"
+            key = f"{clause}:{X.group}" + (f":{scen}" if scen else "")
         else:
             cul = []
             for g, o in sub[-1:]:           # the operation that flips the behaviour; earlier ones (set-up) are in `what`
@@ -627,7 +687,7 @@ class Runner:
                     desc = "other_grid." + desc
                 if desc not in cul:
                     cul.append(desc)
-            key = f"{clause}:{X.group}:after:" + (">".join(cul) if cul else "nothing(fresh_grid_differs)")
+            key = f"{clause}:{X.group}:" + (f"{scen}:" if scen else "") + "after:" + (">".join(cul) if cul else "nothing(fresh_grid_differs)")
         return key
 
     def record(self, pair, hist, gi, X, d, got):
@@ -902,12 +962,42 @@ def histories(tier, seed):
     rng = random.Random(seed * 7919 + 1)
     jit_job = _start_jit_subprocess(tier, seed)
     srcs = sources(tier, seed)
+    nsrc = len(srcs)                       # the general sources; the targeted Cartesian-only sources follow them in the list
+    csrcs = cart_sources(tier, seed)
+    srcs = srcs + csrcs
     ops = alphabet()
     refs = Refs(srcs, ops)
     ops_obs = list(ops)
     R = Runner(srcs, ops, refs)
-    nsrc = len(srcs)
-    budget = (500 if thorough else 26) - (time.time() - t0)
+    # ---- 0. sources carrying ONLY Cartesian coordinates that are not of unit length: 'read a lazily derived spherical quantity'
+    #         (or anything that triggers one), then 'read the stored x/y/z, the derived lon/lat and the export'
+    by_label = {o.label: o for o in ops}
+    cart_obs = [by_label[l] for l in ("node_x", "node_y", "node_z", "face_x", "face_y", "face_z", "edge_x", "edge_y", "edge_z",
+                                      "node_lon", "node_lat", "face_lon", "face_lat", "edge_lon", "edge_lat")]
+    quick_triggers = ["node_lon", "node_lat", "face_lon", "face_lat", "edge_lon", "edge_lat", "compute_face_areas", "face_areas", "bounds",
+                      "to_xarray(grid_format=scrip)", "to_xarray(grid_format=ugrid)", "to_xarray(grid_format=exodus)",
+                      "get_ball_tree(coordinates=nodes,coordinate_system=spherical,distance_metric=haversine)",
+                      "get_ball_tree(coordinates=face centers,coordinate_system=spherical,distance_metric=haversine)",
+                      "get_ball_tree(coordinates=edge centers,coordinate_system=cartesian,distance_metric=minkowski)",
+                      "get_kd_tree(coordinates=nodes,coordinate_system=spherical,distance_metric=minkowski)",
+                      "to_geodataframe(periodic_elements=exclude,projection=None,engine=spatialpandas)",
+                      "to_polycollection(periodic_elements=exclude,projection=None)",
+                      "to_linecollection(periodic_elements=exclude,projection=None)",
+                      "subset.nearest_neighbor(k=2,element=nodes)", "subset.bounding_circle(r=9,element=face centers)", "get_dual",
+                      "isel(n_face=[0])", "antimeridian_face_indices", "edge_node_distances", "edge_face_distances", "face_jacobian"]
+    cart_triggers = list(ops) if thorough else [by_label[l] for l in quick_triggers]
+    t_cart = time.time()
+    n_cart = 0
+    for ci in range(nsrc, len(srcs)):
+        for a in cart_triggers:
+            if time.time() - t_cart > (120 if thorough else 9):
+                break
+            obs = [x for x in cart_obs if x is not a]
+            R.run_history((ci, ci), [(0, a)], [(0, x) for x in obs])
+            n_cart += 1
+    srcs_general = srcs[:nsrc]
+    t_cart = time.time() - t_cart          # (quick: ~3 s) not taken out of the budget of the sampled sections below
+    budget = (500 if thorough else 26) - (time.time() - t0) + (0 if thorough else min(t_cart, 4.0))
     t1 = time.time()
 
     def left():
@@ -975,10 +1065,12 @@ def histories(tier, seed):
                          "violated": "no call alters the library's module-level constants",
                          "inputs": {"grid": ent["grid"], "histories": ent["examples"][:3]}, "observed": "changed", "expected": "import-time literal"})
     # ---- JIT on / off
-    njit, note = _finish_jit(jit_job, srcs, ops, refs, max(5.0, (560 if thorough else 37) - (time.time() - t0)), failures)
+    njit, note = _finish_jit(jit_job, srcs_general, ops, refs, max(5.0, (560 if thorough else 37) - (time.time() - t0)), failures)
     failures.sort(key=lambda f: f["key"])
     bound = (f"{len(ops)} operations ({len(PROPS)} Grid properties + method calls with several argument sets) on {len(srcs)} grids "
-             f"({', '.join(s['name'] for s in srcs[:3])}{', ...' if len(srcs) > 3 else ''}); {R.nhist} histories of 1-3 operations over two "
+             f"({', '.join(s['name'] for s in srcs[:3])}{', ...' if len(srcs) > 3 else ''}; of these {len(csrcs)} carry only Cartesian "
+             f"coordinates of length 0.5 / 2 / 3 / 6371.22: {n_cart} two-step histories 'read a derived spherical quantity or anything "
+             f"triggering one, then read stored x/y/z, derived lon/lat, the ugrid export'); {R.nhist} histories of 1-3 operations over two "
              f"interleaved grids, each followed by {'all' if thorough else 'related + 8..13 sampled'} observations compared with fresh-grid references"
              + ("; all (a, X) singles on fresh grids" if thorough else "; seeded samples") + f"; module constants deep-compared after every "
              f"history; {note}; main run NUMBA_DISABLE_JIT={os.environ.get('NUMBA_DISABLE_JIT', '0')}"
